@@ -580,8 +580,8 @@ class MatchControlConstructionToken(CompositeBaseToken):
         return self.value[4]
 
     @property
-    def match_type(self) -> ExpressionToken:
-        return self.value[6]
+    def match_type(self) -> ExpressionToken | None:
+        return self.value[6] if len(self.value) == 8 else None
 
 
 class XMatchControlConstructionToken(CompositeBaseToken):
